@@ -494,6 +494,9 @@ class SpecEval:
             return SV(w.Iface.ref(v.t), ty)
         if name == 'itag':
             return SV(w.Iface.tag(self.ev(args[0]).t), 'int')
+        if name == 'strlower':
+            # strlower(s): the term strings.ToLower(s) returns (uninterpreted, the same function the trusted model uses)
+            return SV(w.uf('strings_ToLower', w.Str, w.Str)(self.ev(args[0]).t), 'string')
         if name == 'fmtfloat':
             # fmtfloat(x): the text strconv.FormatFloat(x, 'f', -1, 64) returns (the term of its trusted model)
             f_ = w.uf('strconv_FormatFloat', z3.RealSort(), z3.IntSort(), z3.IntSort(), z3.IntSort(), w.Str)
